@@ -9,7 +9,7 @@ LEVEL = 'exploration'
 
 
 def sizes(ctx):
-    return dict(programs=48, inputs=24) if ctx.tier == 'quick' else dict(programs=480, inputs=100)
+    return dict(programs=96, inputs=24) if ctx.tier == 'quick' else dict(programs=640, inputs=100)
 
 
 def gen_cases(ctx, n_programs, n_inputs):
